@@ -87,11 +87,11 @@ class StaticCheck(Check):
         nsim = 400 if tier == "quick" else 6000
         for er, route in ((1, "linear"), (1, "binary_window")):
             name = "PGMsim_r%d_%s" % (er, route)
-            ms.append(ModelRun("PGMIndex.tla", pgm_cfg(work, name, 120, 30, 1, er, 120, route, 1, PGM_INV, minbuild=24, maxstep=9), name + " (simulation, arrays of 24..30 keys)",
+            ms.append(ModelRun("PGMIndex.tla", pgm_cfg(work, name, 400, 40, 1, er, 400, route, 1, PGM_INV, minbuild=30, maxstep=9), name + " (simulation, arrays of 30..40 keys over 0..399)",
                                workers=2, timeout=1500, simulate="num=%d,depth=40" % nsim, exhaustive=False,
-                               constants={"U": 120, "N": 30, "Eps": 1, "EpsRec": er, "RouteMode": route, "MinBuildLen": 24, "MaxStep": 9, "traces": nsim * 2}))
-        ms.append(ModelRun("PGMIndex.tla", pgm_cfg(work, "W_three", 120, 30, 1, 1, 120, "linear", 1, ["WitnessThreeLevels"], minbuild=24, maxstep=9), "witness: an index with three levels (simulation)",
-                           workers=2, timeout=600, simulate="num=3000,depth=40", expect="violation:*"))
+                               constants={"U": 400, "N": 40, "Eps": 1, "EpsRec": er, "RouteMode": route, "MinBuildLen": 30, "MaxStep": 9, "traces": nsim * 2}))
+        ms.append(ModelRun("PGMIndex.tla", pgm_cfg(work, "W_three", 400, 40, 1, 1, 400, "linear", 1, ["WitnessThreeLevels"], minbuild=34, maxstep=9), "witness: an index with three levels (simulation)",
+                           workers=2, timeout=900, simulate="num=8000,depth=60", expect="violation:*"))
         # the arithmetic core of the +2 slack, for all naturals (Apalache / Z3)
         ms.append(ApalacheRun("RangeLemma.tla", "Lemma", "RangeLemma (Apalache): lo <= r <= hi, width <= 2Eps+2, for all naturals"))
         ms.append(ApalacheRun("RangeLemma.tla", "Strict", "RangeLemma (Apalache): r < hi for a present key, for all naturals"))
